@@ -159,6 +159,18 @@ def handle (toks : List String) : Option String :=
       match dec h with
       | none => "bad-op"
       | some s => enc (argFormat g.delimiters s)
+  | "c06.normal" :: rest => some <|
+      -- is the component in the normal form of `C06Line.line_roundtrip_full` (hypotheses evaluated by Lean)?
+      match decCpt rest with
+      | none => "bad-op"
+      | some c =>
+        match g.rules.find? (fun r => r.classname == c.classname) with
+        | none => "norule"
+        | some r =>
+          let on := match optsParse c.opts with
+            | .ok o => toString (optsNormal o)
+            | .error _ => "err"
+          toString (normalCpt g r c) ++ " " ++ on ++ " " ++ toString (grammarWF g)
   | ["c06.opts", h] => some <|
       match dec h with
       | none => "bad-op"
